@@ -62,7 +62,7 @@ type rop struct {
 }
 
 type outcome struct {
-	Kind   string `json:"kind"` // status | err | wrapcancel | ctxcancel | deadline (error only) | expired (context past its deadline)
+	Kind   string `json:"kind"` // status | statuscancel | statusexpired (response in, then the context ends) | err | wrapcancel | ctxcancel | deadline (error only) | expired (context past its deadline)
 	Status int    `json:"status,omitempty"`
 }
 
@@ -256,6 +256,16 @@ func execute(p *program) (o observation) {
 			case "status":
 				return &http.Response{StatusCode: oc.Status, Status: fmt.Sprintf("%d X", oc.Status), Proto: "HTTP/1.1", ProtoMajor: 1, ProtoMinor: 1,
 					Header: http.Header{"Content-Type": {"text/plain"}}, Body: io.NopCloser(strings.NewReader("ok")), ContentLength: 2, Request: q}, nil
+			case "statuscancel", "statusexpired":
+				// the response arrives complete and without error; the request's context ends
+				// before the loop decides about a retry
+				if oc.Kind == "statuscancel" {
+					ctx.end(context.Canceled)
+				} else {
+					ctx.end(context.DeadlineExceeded)
+				}
+				return &http.Response{StatusCode: oc.Status, Status: fmt.Sprintf("%d X", oc.Status), Proto: "HTTP/1.1", ProtoMajor: 1, ProtoMinor: 1,
+					Header: http.Header{"Content-Type": {"text/plain"}}, Body: io.NopCloser(strings.NewReader("ok")), ContentLength: 2, Request: q}, nil
 			case "err":
 				return nil, errors.New("E1! transport failure")
 			case "wrapcancel":
@@ -312,6 +322,9 @@ func execute(p *program) (o observation) {
 			st, ec := viewOf(resp, resp.Err)
 			_ = ec
 			o.Ivals = append(o.Ivals, callObs{id, att, st, errCode(resp.Err)})
+			if id%3 == 0 {
+				return 2 * time.Millisecond // a positive wait (interruptible by the context)
+			}
 			return 0
 		}
 	}
@@ -490,6 +503,8 @@ func outcomeView(oc outcome) (st int, ec int, cancelled bool) {
 	switch oc.Kind {
 	case "status":
 		return oc.Status, 0, false
+	case "statuscancel", "statusexpired":
+		return oc.Status, 0, true
 	case "err":
 		return -1, 1, false
 	case "wrapcancel":
